@@ -8,6 +8,7 @@ L3: live sockets with shortened timeouts (sample).
 """
 from __future__ import annotations
 
+import os
 import ssl
 import time
 
@@ -44,6 +45,7 @@ def setup(ctx):
     ctx.require("monitor", "l2_request_stalls", 10)
     ctx.require("monitor", "l2_close_notify_stalls", 20)
     ctx.require("monitor", "l2_unreadable_client_cert_stalls", 10)
+    ctx.require("monitor", "l2_sessions_really_resumed", 16)
     ctx.require("monitor", "complete_slow", 10)
     ctx.require("monitor", "complete_deliveries", 60)
     ctx.require("monitor", "l1_stalls_with_clock_steps", 60)
@@ -620,6 +622,91 @@ def run_l2_unreadable_client_cert(ctx):
                 ctx.case(("L2", "unreadable-client-cert", tamper, tls_max, name, obs["tcp_closing"], obs["plain"][:2]), True, sample=wit)
 
 
+def run_l2_resumed_sessions(ctx, base_dir=None):
+    """A client that resumes its previous TLS session (abbreviated handshake: the flights differ from a full one)
+    and then goes silent - at once, after part of a request, in the middle of an upload - or sends a whole request:
+    through the wiring start_server hands to the loop, both backends, TLS 1.2 session ids and TLS 1.3 tickets, with
+    and without a client certificate."""
+    import contextlib
+    import io
+    import tempfile
+
+    from nauyaca.server import protocol as P
+    from nauyaca.server.config import ServerConfig
+
+    from vf import quiet_logs, tlsbench
+    from vf.gen import certs
+    from vf.sim import capture_factory
+
+    T = P.REQUEST_TIMEOUT
+    d = tempfile.mkdtemp(prefix="vf-c15-rs-")
+    try:
+        with open(os.path.join(d, "index.gmi"), "w") as f:
+            f.write("# hi\n")
+        k = 0
+        for backend in ("pyopenssl", "stdlib"):
+            for ver in ("1.2", "1.3"):
+                for with_cert in ((False, True) if backend == "pyopenssl" else (False,)):
+                    for name, then in (("silent", None), ("partial-request", b"gemini://localhost/ind"), ("partial-upload", b"titan://localhost/u;size=10\r\nabc"), ("complete-request", b"gemini://localhost/index.gmi\r\n")):
+                        k += 1
+                        if not ctx.mine(k):
+                            continue
+                        with contextlib.redirect_stdout(io.StringIO()):
+                            cap = capture_factory(dict(log_level="CRITICAL", enable_rate_limiting=False), ServerConfig(host="127.0.0.1", port=1965, document_root=d, require_client_cert=(backend == "pyopenssl")))
+                        quiet_logs()
+                        loop = new_loop()
+                        try:
+                            cctx = ssl.SSLContext(ssl.PROTOCOL_TLS_CLIENT)
+                            cctx.check_hostname = False
+                            cctx.verify_mode = ssl.CERT_NONE
+                            if ver == "1.2":
+                                cctx.maximum_version = ssl.TLSVersion.TLSv1_2
+                            if with_cert:
+                                own = certs.identity("c15-client", "ec")
+                                cctx.load_cert_chain(own.certfile, own.keyfile)
+                            first = tlsbench.Sandwich(loop, None, captured=cap, client_ctx=cctx)
+                            if not first.handshake():
+                                ctx.undecided(f"L2:resumed:first-handshake-failed:{first.error}")
+                                continue
+                            first.client_send(b"gemini://localhost/index.gmi\r\n")
+                            first.finish()
+                            t0 = loop.time()
+                            second = tlsbench.Sandwich(loop, None, captured=cap, client_ctx=cctx, session=first.client.session)
+                            if not second.handshake():
+                                ctx.undecided(f"L2:resumed:second-handshake-failed:{second.error}")
+                                continue
+                            reused = second.client.session_reused
+                            if then:
+                                second.client_send(then)
+                            loop.run_until(t0 + 500.0)
+                            second.drain()
+                            plain = bytes(second.client_plain)
+                            ctx.count("monitor", "l2_resumed_session_stalls")
+                            if reused:
+                                ctx.count("monitor", "l2_sessions_really_resumed")
+                            dt = (second.tcp.close_time - t0) if second.tcp.close_time is not None else None
+                            wit = {"level": "L2-wired", "backend": backend, "tls": ver, "client_certificate": with_cert, "session_reused": reused, "then": name, "plain": plain[:40], "tcp_closing": second.tcp.closing,
+                                   "closed_after_s": dt}
+                            if not second.tcp.closing:
+                                ctx.violation(f"held-open:phase=resumed-session:backend={backend}", "after a resumed handshake the peer went silent: the loop became quiescent with its TCP transport still open", wit)
+                            elif name == "complete-request":
+                                if not plain.startswith(b"20 "):
+                                    ctx.violation(f"timeout-after-complete:phase=resumed-session:backend={backend}", f"a complete request on a resumed session was answered {plain[:24]!r}", wit)
+                            elif dt is None or dt > T + 30.0 + 60.0:
+                                ctx.violation(f"late-close:phase=resumed-session:backend={backend}", f"closed {dt}s after the resumed handshake", wit)
+                            elif not plain.startswith(b"40 ") and name != "partial-upload":
+                                ctx.violation(f"no-40:phase=resumed-session:backend={backend}", "silent peer on a resumed session disconnected without a 40", wit)
+                            else:
+                                ctx.count("outcome", f"L2:{backend}:resumed:{name}:closed@{dt}")
+                            ctx.case(("L2", "resumed", backend, ver, with_cert, name, reused, plain[:2]), True, sample=wit)
+                        finally:
+                            close_loop(loop)
+    finally:
+        import shutil
+
+        shutil.rmtree(d, ignore_errors=True)
+
+
 def judge_l2(ctx, obs, backend, tls_max, client_cert, phase, f, o, T, expect_40):
     wit = {"level": "L2", "backend": backend, "tls": tls_max, "client_cert": client_cert, "phase": phase, "flight": f, "offset": o,
            "observed": {kk: obs[kk] for kk in ("flights", "tcp_closing", "tcp_close_time", "end", "plain", "client_eof", "handler", "version", "loop_exceptions")}}
@@ -729,5 +816,6 @@ def run(ctx):
     run_l1_complete_deliveries(ctx)
     run_l2(ctx)
     run_l2_unreadable_client_cert(ctx)
+    run_l2_resumed_sessions(ctx)
     if ctx.shard == 0:
         run_l3(ctx)
